@@ -32,11 +32,14 @@ type faultBank struct {
 	inject      []bool // planned failures per call index
 	seen        []bool // what actually happened per call (true = failed)
 	sweepFailed bool
+	payoutOnly  bool // planned failures hit payouts and burns only; sweeps of the sources go through
 }
 
-func (f *faultBank) call(do func() error) error {
+func (f *faultBank) call(do func() error) error { return f.callKind(do, false) }
+
+func (f *faultBank) callKind(do func() error, sweep bool) error {
 	i := len(f.seen)
-	if i < len(f.inject) && f.inject[i] {
+	if i < len(f.inject) && f.inject[i] && !(sweep && f.payoutOnly) {
 		f.seen = append(f.seen, true)
 		return fmt.Errorf("injected fault at bank call %d", i)
 	}
@@ -60,7 +63,7 @@ func (f *faultBank) SendCoinsFromAccountToModule(ctx sdk.Context, a sdk.AccAddre
 	if os.Getenv("VERIF_DEBUG") == "2" {
 		fmt.Fprintf(os.Stderr, "  sweep of %s %v\n", a, amt)
 	}
-	err := f.call(func() error { return f.inner.SendCoinsFromAccountToModule(ctx, a, m, amt) })
+	err := f.callKind(func() error { return f.inner.SendCoinsFromAccountToModule(ctx, a, m, amt) }, true)
 	if err != nil {
 		f.sweepFailed = true
 	}
@@ -73,7 +76,7 @@ func (f *faultBank) SendCoinsFromModuleToAccount(ctx sdk.Context, m string, a sd
 	return f.call(func() error { return f.inner.SendCoinsFromModuleToAccount(ctx, m, a, amt) })
 }
 func (f *faultBank) SendCoinsFromModuleToModule(ctx sdk.Context, m1, m2 string, amt sdk.Coins) error {
-	err := f.call(func() error { return f.inner.SendCoinsFromModuleToModule(ctx, m1, m2, amt) })
+	err := f.callKind(func() error { return f.inner.SendCoinsFromModuleToModule(ctx, m1, m2, amt) }, m2 == distrtypes.DistributorMainAccount)
 	if err != nil && m2 == distrtypes.DistributorMainAccount {
 		f.sweepFailed = true
 	}
@@ -820,6 +823,11 @@ func runDistrCase(ta *TestApp, seed uint64, idx int, rep *Report, profile string
 		return zList(bs)
 	}
 	faultsMode := (profile == "faults" || (profile == "" && rng.Chance(25))) && !k1 && !k2 // over-booked classes fail naturally; no injection there
+	// in 45% of the fault-mode cases only payouts and burns fail (the hypotheses of the ledger refinement theorem)
+	fb.payoutOnly = faultsMode && rng.Chance(45)
+	if fb.payoutOnly {
+		rep.Count("faults_mode.payouts_and_burns_only")
+	}
 	nBlocks := 2 + rng.Intn(10)
 	amountMax := 3 + rng.Intn(24)
 	randCoins := func() sdk.Coins {
@@ -1107,6 +1115,9 @@ func runDistrCase(ta *TestApp, seed uint64, idx int, rep *Report, profile string
 		return res
 	}
 	main := execute(faultsMode, true)
+	if cls != "" || fb.sweepFailed || main.panicked {
+		rep.LedgerExempt = append(rep.LedgerExempt, idx)
+	}
 	if faultsMode && cyclic {
 		rep.Count("faults_mode.cyclic_graph_not_compared")
 	}
